@@ -315,6 +315,18 @@ impl DeclareCommand {
 
             let mut var = ShellVariable::new(ShellValue::Unset(unset_type));
 
+            // As in bash, a new local that shadows an exported variable is exported too, so
+            // that child processes see the local's value.
+            if create_var_local
+                && context
+                    .shell
+                    .env()
+                    .get(name.as_str())
+                    .is_some_and(|(_, shadowed)| shadowed.is_exported())
+            {
+                var.export();
+            }
+
             self.apply_attributes_before_update(&mut var)?;
 
             if let Some(initial_value) = initial_value {
